@@ -265,7 +265,8 @@ pub fn generate(seed: u64, count: usize) -> Family {
                                 let valid = r.chance(1, 2);
                                 Some(EpochConfig {
                                     duration: Uint64::new(if valid { 86_400 + r.below(3) * 43_200 } else { pick_duration(&mut r) }),
-                                    genesis_epoch: Uint64::new(if valid { now_s + r.below(3) * 3600 } else { pick_genesis(&mut r, now_s) }),
+                                    // (re-submitting the stored genesis, which may meanwhile lie in the past, is one of the choices)
+                                    genesis_epoch: Uint64::new(if r.chance(1, 5) { cur_cfg.genesis_epoch.u64() } else if valid { now_s + r.below(3) * 3600 } else { pick_genesis(&mut r, now_s) }),
                                 })
                             };
                             let t = format!("(EmUpdateConfig {})", copt(c.as_ref().map(cfg_term)));
